@@ -54,6 +54,9 @@ pub struct TlsCase {
     /// the transport is a buffered stream: what the server writes reaches the client only when the
     /// server flushes (legal for any `Read + Write`; a BufWriter in front of a socket does this)
     pub buffer_writes: bool,
+    /// the client sends its close_notify right behind its last command, without waiting for the replies
+    /// (write, then shutdown of the sending side): the replies are still owed and still arrive
+    pub eager_close: bool,
 }
 
 pub fn run_tls(m: &TlsMaterial, c: &TlsCase) -> Result<TlsObs, String> {
@@ -126,6 +129,7 @@ pub fn run_tls(m: &TlsMaterial, c: &TlsCase) -> Result<TlsObs, String> {
     w.raw_limit = c.raw_limit;
     w.write_fault = c.write_fault;
     w.buffer_writes = c.buffer_writes;
+    w.eager_close = c.eager_close && c.close_notify && c.app_override.is_none();
     if c.record_per_command && c.app_override.is_none() {
         w.app_chunks = chunks;
     }
@@ -358,6 +362,9 @@ fn judge(m: &TlsMaterial, c: &TlsCase, o: &TlsObs, rep: &mut Report, d: &dyn Fn(
         return;
     }
     rep.counters.inc("connections_compared_with_plaintext");
+    if o.world.closed_eagerly {
+        rep.counters.inc("connections_compared_whose_client_sent_close_notify_right_behind_its_last_command");
+    }
     if o.world.app_in.len() > 70_000 {
         rep.counters.inc("connections_with_reply_over_64k");
     }
@@ -586,7 +593,7 @@ pub fn run(ctx: &Ctx) -> Report {
         if quit {
             cmds.push(Cmd::quit());
         }
-        let c = TlsCase { tls13, with_cert, server_mode: mode, user: CANARY_USER.to_vec(), cmds, scripts, first_cut: cut, cycle: vec![], write_limit: usize::MAX, close_notify: true, raw_limit: None, hs_variant: 0, app_override: None, seqs: (1, 2), auth_reject: None, record_per_command: false, write_fault: None, buffer_writes: rng.bool() };
+        let c = TlsCase { tls13, with_cert, server_mode: mode, user: CANARY_USER.to_vec(), cmds, scripts, first_cut: cut, cycle: vec![], write_limit: usize::MAX, close_notify: true, raw_limit: None, hs_variant: 0, app_override: None, seqs: (1, 2), auth_reject: None, record_per_command: false, write_fault: None, buffer_writes: rng.bool(), eager_close: rng.chance(1, 3) };
         let o = match run_tls(mref, &c) {
             Ok(o) => o,
             Err(e) => {
@@ -635,7 +642,7 @@ pub fn run(ctx: &Ctx) -> Report {
             1 => b"root".to_vec(),
             _ => CANARY_USER.to_vec(),
         };
-        let c = TlsCase { tls13, with_cert, server_mode: mode, user: uname, cmds, scripts, first_cut, cycle, write_limit: wl, close_notify, raw_limit: None, hs_variant: if rng.bool() { rng.next() | 1 } else { 0 }, app_override: None, seqs: (1, 2), auth_reject: None, record_per_command: rng.bool(), write_fault: None, buffer_writes: rng.bool() };
+        let c = TlsCase { tls13, with_cert, server_mode: mode, user: uname, cmds, scripts, first_cut, cycle, write_limit: wl, close_notify, raw_limit: None, hs_variant: if rng.bool() { rng.next() | 1 } else { 0 }, app_override: None, seqs: (1, 2), auth_reject: None, record_per_command: rng.bool(), write_fault: None, buffer_writes: rng.bool(), eager_close: rng.chance(1, 3) };
         let o = match run_tls(mref, &c) {
             Ok(o) => o,
             Err(e) => {
@@ -661,7 +668,7 @@ pub fn run(ctx: &Ctx) -> Report {
         let ncmd = rng.range(1, 4) as usize;
         let (mut cmds, scripts) = tls_script(rng, ncmd);
         cmds.push(Cmd::quit());
-        let mut c = TlsCase { tls13: rng.bool(), with_cert: false, server_mode: 0, user: CANARY_USER.to_vec(), cmds, scripts, first_cut: 0, cycle: vec![], write_limit: usize::MAX, close_notify: false, raw_limit: None, hs_variant: 0, app_override: None, seqs: (1, 2), auth_reject: None, record_per_command: rng.chance(1, 3), write_fault: None, buffer_writes: rng.bool() };
+        let mut c = TlsCase { tls13: rng.bool(), with_cert: false, server_mode: 0, user: CANARY_USER.to_vec(), cmds, scripts, first_cut: 0, cycle: vec![], write_limit: usize::MAX, close_notify: false, raw_limit: None, hs_variant: 0, app_override: None, seqs: (1, 2), auth_reject: None, record_per_command: rng.chance(1, 3), write_fault: None, buffer_writes: rng.bool(), eager_close: false };
         let dry = match run_tls(mref, &c) {
             Ok(o) => o,
             Err(e) => {
@@ -719,7 +726,7 @@ pub fn run(ctx: &Ctx) -> Report {
             cmds.push(Cmd::quit());
         }
         let big_input = cmds.iter().map(|c| c.payload.len()).sum::<usize>() > 100_000;
-        let mut c = TlsCase { tls13: rng.bool(), with_cert: rng.bool(), server_mode: 0, user: CANARY_USER.to_vec(), cmds, scripts: m.conv.scripts.clone(), first_cut: if rng.bool() { rng.range(1, 60) as usize } else { 0 }, cycle: if rng.bool() { vec![] } else { vec![rng.range(1, 2000) as usize] }, write_limit: wl, close_notify, raw_limit: None, hs_variant: 0, app_override: None, seqs: (1, 2), auth_reject: None, record_per_command: rng.bool(), write_fault: None, buffer_writes: rng.bool() };
+        let mut c = TlsCase { tls13: rng.bool(), with_cert: rng.bool(), server_mode: 0, user: CANARY_USER.to_vec(), cmds, scripts: m.conv.scripts.clone(), first_cut: if rng.bool() { rng.range(1, 60) as usize } else { 0 }, cycle: if rng.bool() { vec![] } else { vec![rng.range(1, 2000) as usize] }, write_limit: wl, close_notify, raw_limit: None, hs_variant: 0, app_override: None, seqs: (1, 2), auth_reject: None, record_per_command: rng.bool(), write_fault: None, buffer_writes: rng.bool(), eager_close: rng.chance(1, 3) };
         if big_input && !c.cycle.is_empty() {
             // the real parser zero-fills its doubling buffer before every read: tiny reads over megabytes
             // cost minutes (a cost bound of the harness, as in the plaintext mega workload)
@@ -748,7 +755,7 @@ pub fn run(ctx: &Ctx) -> Report {
     let r = par_cases(ctx, "C18", "refusals", n, |rng, i, rep| {
         let mode = if i % 2 == 0 { 3 } else { 1 };
         let (cmds, scripts) = tls_script(rng, 2);
-        let c = TlsCase { tls13: rng.bool(), with_cert: false, server_mode: mode, user: CANARY_USER.to_vec(), cmds, scripts, first_cut: rng.below(80) as usize, cycle: if rng.bool() { vec![] } else { vec![rng.range(1, 40) as usize] }, write_limit: usize::MAX, close_notify: true, raw_limit: None, hs_variant: 0, app_override: None, seqs: (1, 2), auth_reject: None, record_per_command: false, write_fault: None, buffer_writes: rng.bool() };
+        let c = TlsCase { tls13: rng.bool(), with_cert: false, server_mode: mode, user: CANARY_USER.to_vec(), cmds, scripts, first_cut: rng.below(80) as usize, cycle: if rng.bool() { vec![] } else { vec![rng.range(1, 40) as usize] }, write_limit: usize::MAX, close_notify: true, raw_limit: None, hs_variant: 0, app_override: None, seqs: (1, 2), auth_reject: None, record_per_command: false, write_fault: None, buffer_writes: rng.bool(), eager_close: rng.chance(1, 3) };
         let o = match run_tls(mref, &c) {
             Ok(o) => o,
             Err(e) => {
